@@ -163,6 +163,86 @@ def _engine_nbrs(g):
     return pickle.loads(data)
 
 
+def _stochastic_nbrs(g):
+    """The stochastic grid engines reveal their neighbour relation too: a single Gillespie walker hops between neighbouring
+    cells only; one tau-leap step from a cell holding 1000 molecules feeds exactly the cells the specification lists."""
+    w, h, d, bc = g["w"], g["h"], g["d"], g["bc"]
+    n = w * h * d
+    r, wr = os.pipe()
+    pid = os.fork()
+    if pid == 0:
+        os.close(r)
+        try:
+            net = RDNetwork(species=[Species("A", D=1.0)], reactions=[])
+            space = RDGridSpace(w=w, h=h, d=d, boundary_conditions=bcd(bc), cell_vol=1.0)
+            out = {"walk": [], "leap": []}
+            if n > 1:
+                st = [0.0] * n
+                st[(w * h * d) // 2] = 1.0
+                system = RDSystem(network=net, space=space, state=UnitArray(st, "molecule"))
+                script = RDScript(system=system, t_sample=[0.0], t_max=-1.0, time_step=1.0, sampling_policy="on_iteration", rng_seed=w + 7 * h + 49 * d,
+                                  init_state_processing="none")
+                eng = build.make_engine("gillespie", lib=_lib)
+                eng.setup(script)
+                eng.iterate_n(400)
+                traj = engine_rec.raw_traj(_lib, n)
+                eng.finalize()
+                out["walk"] = [int(np.argmax(row)) if abs(sum(row) - 1.0) < 1e-12 and max(row) == 1.0 else -1 for row in traj]
+            for i in range(n):
+                st = [0.0] * n
+                st[i] = 1000.0
+                system = RDSystem(network=net, space=space, state=UnitArray(st, "molecule"))
+                script = RDScript(system=system, t_sample=[0.0], t_max=-1.0, time_step=0.05, sampling_policy="no_sampling", rng_seed=i + 1,
+                                  init_state_processing="none")
+                eng = build.make_engine("tauleap", lib=_lib)
+                eng.setup(script)
+                eng.iterate()
+                x = engine_rec.raw_state(_lib, n)
+                eng.finalize()
+                out["leap"].append([float(v) for v in x])
+            msg = pickle.dumps(("ok", out))
+        except BaseException as e:  # noqa
+            msg = pickle.dumps(("exc", repr(e)[:200]))
+        with os.fdopen(wr, "wb") as f:
+            f.write(msg)
+        os._exit(0)
+    os.close(wr)
+    data = engine_rec._read_all(r, 60, pid)
+    _, status = os.waitpid(pid, 0)
+    if data is None or os.WIFSIGNALED(status) or not data:
+        return ("crash",)
+    return pickle.loads(data)
+
+
+def stochastic_engine_checks(rep, grids):
+    ctx = mp.get_context("fork")
+    with ctx.Pool(util.NCPU, initializer=_init) as pool:
+        res = pool.map(_stochastic_nbrs, grids, chunksize=2)
+    hops = 0
+    for g, r in zip(grids, res):
+        tag = {"w": g["w"], "h": g["h"], "d": g["d"], "bc": g["bc"]}
+        rep.case(["stochastic-nbr", tag])
+        if r[0] != "ok":
+            rep.violation("engine", "geometry:stochastic-engine-run-" + r[0], dict(tag, info=list(r)))
+            continue
+        n = g["w"] * g["h"] * g["d"]
+        walk = r[1]["walk"]
+        for a, b in zip(walk, walk[1:]):
+            if a == b:
+                continue
+            hops += 1
+            if a < 0 or b < 0 or b not in g["nbr"][a]:
+                rep.violation("engine", "geometry:gillespie-hop-between-non-neighbours", dict(tag, hop=[a, b], neighbours=g["nbr"][a] if a >= 0 else None))
+                break
+        for i, x in enumerate(r[1]["leap"]):
+            want = {j for j in g["nbr"][i] if j != i}
+            fed = {j for j in range(n) if j != i and x[j] > 0}
+            if fed != want or abs(sum(x) - 1000.0) > 1e-9:
+                rep.violation("engine", "geometry:tauleap-neighbours", dict(tag, source=i, fed=sorted(fed), spec=sorted(want), total=sum(x)))
+                break
+    rep.extra["gillespie_hops_checked"] = hops
+
+
 def engine_checks(rep, grids):
     build.build_engine("plain")
     ctx = mp.get_context("fork")
@@ -291,6 +371,7 @@ def run(tier, selftest=False, only=None):
         with rep.guard("api", {"w": g["w"], "h": g["h"], "d": g["d"], "bc": g["bc"]}):
             api_checks(rep, g)
     engine_checks(rep, grids)
+    stochastic_engine_checks(rep, grids)
     equivalence_checks(rep, rng, 150 if tier == "quick" else 2000, 200 if tier == "quick" else 1000)
     rep.traces = len(grids)
     g = grids[len(grids) // 2]
